@@ -103,7 +103,11 @@ def compressed_update(handle, local, full, parent):
     key = ("C", handle, local, full, parent)
     if key not in _CACHE:
         ser = T.ObjectUpdateCompressedDataSerializer
-        flags = T.CompressedFlags.PARENT_ID if parent else T.CompressedFlags(0)
+        # the other optional sections come and go too (a spinning child prim has both an angular velocity and a parent id)
+        extra = random.Random(repr(key)).getrandbits(11) & ~int(T.CompressedFlags.PARENT_ID)
+        if local % 2:
+            extra |= int(T.CompressedFlags.ANGULAR_VELOCITY)
+        flags = T.CompressedFlags(extra | (int(T.CompressedFlags.PARENT_ID) if parent else 0))
         for attempt in range(40):
             d = gen_spec.Deriver(random.Random(f"{key}:{attempt}"), size_budget=8,
                                  top_overrides={"Flags": flags, "PCode": T.PCode.PRIMITIVE, "ID": local, "FullID": full,
